@@ -308,7 +308,10 @@ pub fn gen_case(idx: u64, large: bool) -> Case {
     for k in 0..nm {
         let values: Vec<&MacroDef> = macros.iter().filter(|m| m.is_value && m.params.is_none() && !undefined.contains(&m.name)).collect();
         let fns: Vec<&MacroDef> = macros.iter().filter(|m| m.params.is_some() && m.arity > 0 && m.is_value && !undefined.contains(&m.name)).collect();
-        let kind = if large { rng.below(4) } else { rng.below(12) };
+        let mut kind = if large { rng.below(4) } else { rng.below(13) };
+        if large && [97usize, 98, 99, 100, 197, 198, 199, 200].contains(&k) && rng.chance(1, 2) {
+            kind = 4 + rng.below(3); // a function-like macro right at a chunk boundary of the macro tables
+        }
         let name = format!("K{}", k);
         let def = match kind {
             0 | 1 => MacroDef { name, params: None, body: format!("{}", rng.below(120)), arity: 0, is_value: true },
@@ -347,6 +350,11 @@ pub fn gen_case(idx: u64, large: bool) -> Case {
                 desc.push("parameter named like a variable used in other bodies".into());
                 MacroDef { name, params: Some(vec!["g0".into()]), body: "(g0 | 1)".into(), arity: 1, is_value: true }
             }
+            12 => {
+                // object-like, although the body starts with a parenthesised identifier
+                desc.push("object-like body starting with (identifier)".into());
+                MacroDef { name, params: None, body: format!("(g{})+{}", rng.below(4), rng.below(9)), arity: 0, is_value: true }
+            }
             10 => {
                 desc.push("## paste of two parameters".into());
                 MacroDef { name, params: Some(vec!["a".into(), "b".into()]), body: "a##b".into(), arity: 2, is_value: false }
@@ -375,7 +383,20 @@ pub fn gen_case(idx: u64, large: bool) -> Case {
                 } else {
                     desc.push("#undef".into());
                 }
-                undefined.push(u);
+                let objlike = macros.iter().any(|m| m.name == u && m.params.is_none() && m.is_value);
+                if objlike && rng.chance(1, 2) {
+                    // defined again with another value: legal after an #undef
+                    let nv = format!("{}", 200 + rng.below(50));
+                    lines.push(format!("#define {} {}", u, nv));
+                    for m in macros.iter_mut() {
+                        if m.name == u {
+                            m.body = nv.clone();
+                        }
+                    }
+                    desc.push("#define again after #undef".into());
+                } else {
+                    undefined.push(u);
+                }
             }
         }
     }
